@@ -183,6 +183,67 @@ def _inj_work(args):
     return res
 
 
+def raw_data_containment(res, seed):
+    """the raw-data dispatch of a live / recorder framework (`_process_raw_data` -> `call_process_raw_data`): an exception - of the
+    framework's own family or any other - raised by one strategy's `process_raw_data` is contained; the strategies registered after it
+    and the remaining datums of the message are served, every strategy receives every datum of its stream exactly once"""
+    common.use_repo()
+    from unittest import mock
+    from flumine import Flumine, clients, BaseStrategy, config
+    from flumine.events import events
+    from flumine.exceptions import FlumineException
+    rng = random.Random(seed * 77 + 5)
+    for case in range(40):
+        fw = Flumine(client=clients.BetfairClient(mock.Mock(lightweight=False), username="u"))
+        fw.log_control = lambda e: None
+        n = rng.choice([2, 3, 4])
+        bad = rng.randrange(n)
+        bad_call = rng.randint(1, 4)
+        exc = rng.choice([ValueError, FlumineException, KeyError])
+        got = {i: [] for i in range(n)}
+        sts = []
+        for i in range(n):
+            st = BaseStrategy(market_filter={}, name="raw%d" % i)
+            st.streams = [mock.Mock(stream_id=55 if (i == bad or rng.random() < 0.8) else 66)]
+            def prd(clk, pt, datum, i=i):
+                got[i].append((clk, datum.get("id")))
+                if i == bad and len(got[i]) == bad_call:
+                    raise exc("injected by the checker")
+            st.process_raw_data = prd
+            sts.append(st)
+            fw.strategies._strategies.append(st)
+        sent = []
+        escaped = None
+        was = config.raise_errors
+        config.raise_errors = False
+        try:
+            for k in range(rng.randint(2, 4)):
+                datums = [{"id": "1.%d" % (70 + rng.randrange(3)), "rc": [{"id": 1, "ltp": 2.0}]} for _ in range(rng.randint(1, 3))]
+                sent += [("c%d" % k, d["id"]) for d in datums]
+                try:
+                    fw._process_raw_data(events.RawDataEvent((55, "c%d" % k, 1_900_000_000_000 + k, datums)))
+                except Exception as e:  # noqa
+                    escaped = repr(e)[:120]
+        finally:
+            config.raise_errors = was
+            for ex in (fw.simulated_execution, fw.betfair_execution, fw.betdaq_execution):
+                ex.shutdown()
+        res.evaluations += 1
+        res.distribution["raw-data-dispatch:%s" % exc.__name__] += 1
+        payload = {"seed": seed, "case": case, "mode": "raw-data"}
+        if escaped:
+            res.violate("callback-error-escaped", "live raw-data dispatch: %s raised in process_raw_data of strategy %d left _process_raw_data (%s)" % (
+                exc.__name__, bad, escaped), payload)
+        for i, st in enumerate(sts):
+            exp = sent if st.streams[0].stream_id == 55 else []
+            if got[i] != exp:
+                res.violate("callback-error-not-contained", "live raw-data dispatch: strategy %d received %d of the %d datums of its stream after strategy %d raised %s" % (
+                    i, len(got[i]), len(exp), bad, exc.__name__), payload)
+                break
+        if len(sent) >= bad_call:
+            res.nontrivial.add("raw %d" % case)
+
+
 def run(res, tier, seed, model_ok, search):
     res.rule = ("isolation: 2..3 scripted strategies on shared markets and one client; run(all) vs run(each alone) vs run(reversed registration), "
                 "per-strategy ledgers (statuses, fills, sizes, times, profit) compared; containment: an exception injected at a random invocation "
@@ -191,6 +252,7 @@ def run(res, tier, seed, model_ok, search):
                 "non-trivial = combined run with orders of at least two strategies / an injection; distinct = scenario index")
     big = tier != "quick" or search
     n_iso, n_inj = (1500, 3000) if big else (60, 150)
+    raw_data_containment(res, seed)
     iso = common.pmap(_iso_work, [(seed, i) for i in range(n_iso)], chunksize=2)
     inj = common.pmap(_inj_work, [(seed, i) for i in range(n_inj)], chunksize=4)
     for o in iso:
@@ -234,4 +296,12 @@ def replay(payload):
             solo = ledgers(simworld.Run(sub_scenario(sc, [i])).run()).get(0, [])
             print("strategy", i, "isolated:", solo == full.get(i, []))
         return 1
+    if rp.get("mode") == "raw-data":
+        res = common.Result()
+        raw_data_containment(res, rp.get("seed", 0))
+        hits = [v for v in res.violations if (v.get("replay") or {}).get("case") == rp.get("case")]
+        for v in hits:
+            print(v["signature"], "|", v["what"])
+        print("raw-data dispatch case %s of seed %s: %d violation(s)" % (rp.get("case"), rp.get("seed"), len(hits)))
+        return 1 if hits else 0
     return simcheck.generic_replay("C13", payload) if rp.get("scenario") and not rp.get("mode") else 1
